@@ -16,7 +16,8 @@ CONSTANTS MaxExpA,      \* slice A: one service, every expose list up to this le
           MaxExpC2,     \*          ... and up to this length on the second
           LevelIdx,     \* commit levels used by slice B (indices into LevelTab)
           SizeIdx,      \* resource sizes used by slice B (indices into SizeTab)
-          Owners, Providers, DSeqs, GSeqs, OSeqs,    \* slice F: the lease ids (chosen to collide as prefixes)
+          Owners, Providers, DSeqs, GSeqs, OSeqs,    \* slice F: the lease ids (chosen to collide as prefixes / concatenations)
+          DSeqsB, SeqsB,                             \* namespace-map probes: boundary values of dseq (uint64), gseq/oseq (uint32)
           MaxGroupsD,   \* slice D: redeploy pairs over the first MaxGroupsD groups of GroupTab
           MaxGroupsG    \* slice G: pairs of groups for two leases over the first MaxGroupsG groups of GroupTab
 
@@ -53,8 +54,12 @@ RuntimeTab == << "", "none", "gvisor" >>
 Domain     == "apps.example.com"
 
 \* ns: the abstract namespace name of the lease (injective by construction); the harness ignores it
-LeaseSet == {[owner |-> o, dseq |-> d, gseq |-> g, oseq |-> s, provider |-> p, ns |-> ToString(<<o, d, g, s, p>>)] :
-               o \in Owners, d \in DSeqs, g \in GSeqs, s \in OSeqs, p \in Providers}
+\* sequence numbers are decimal strings (see KubePolicy)
+Lease(o, d, g, s, p) == [owner |-> o, dseq |-> d, gseq |-> g, oseq |-> s, provider |-> p, ns |-> ToString(<<o, d, g, s, p>>)]
+LeaseSet == {Lease(o, d, g, s, p) : o \in Owners, d \in DSeqs, g \in GSeqs, s \in OSeqs, p \in Providers}
+\* namespace-map probes: lease ids for which the harness only computes the namespace name (no Deploy): every
+\* combination of the boundary values, so that pairs congruent modulo 2^8, 2^16, 2^32 are all present
+ProbeSet == {Lease(o, d, g, s, p) : o \in Owners, d \in DSeqsB, g \in SeqsB, s \in SeqsB, p \in Providers}
 LeaseSeq == SetToSeq(LeaseSet)
 
 Svc(name, np, pol, exps, cnt, size) ==
@@ -130,16 +135,31 @@ SliceG == LET ls == LeaseSeq IN
   \cup {In2("G", BgL, <<R(g1, BgSettings(TRUE, BgStatic))>>, NeighbourOf(ls), R(g2, BgSettings(np, BgStatic))) : g1 \in GroupsG, g2 \in GroupsG, np \in BOOLEAN}
   \cup {In2("G", BgL, <<R(g1, BgSettings(TRUE, BgStatic)), R(g2, BgSettings(TRUE, BgStatic))>>, NeighbourOf(ls), R(g1, BgSettings(TRUE, BgStatic))) : g1 \in GroupsD, g2 \in GroupsG}
 
-InputSeq == SetToSeq(SliceA \cup SliceB \cup SliceC \cup SliceD \cup SliceE \cup SliceF \cup SliceG)
+\* ... and two leases in one cluster whose ids differ only by a multiple of 2^8 / 2^16 / 2^32 in one sequence number
+\* (different manifests, so that each lease's stale-resource cleanup would hit the other's workloads if they shared
+\* a namespace), in both orders
+Congruent == { <<"1", "4294967297">>, <<"1", "8589934593">>, <<"1", "65537">>, <<"1", "257">>, <<"255", "65535">>,
+               <<"4294967295", "18446744073709551615">>, <<"11", "1">> }
+Congruent32 == {c \in Congruent : c \notin {<<"1", "4294967297">>, <<"1", "8589934593">>, <<"4294967295", "18446744073709551615">>}}
+TwinPairs == {<<Lease("o1", c[1], "1", "1", "p1"), Lease("o1", c[2], "1", "1", "p1")>> : c \in Congruent}
+             \cup {<<Lease("o1", "1", c[1], "1", "p1"), Lease("o1", "1", c[2], "1", "p1")>> : c \in Congruent32}
+             \cup {<<Lease("o1", "1", "1", c[1], "p1"), Lease("o1", "1", "1", c[2], "p1")>> : c \in Congruent32}
+             \cup {<<Lease("o1", "1", "11", "1", "p1"), Lease("o1", "11", "1", "1", "p1")>>,
+                    <<Lease("o1", "1", "1", "11", "p1"), Lease("o1", "11", "11", "1", "p1")>>}
+SliceH == UNION {{In2("H", tp[1], <<R(GroupTab[4], BgSettings(TRUE, BgStatic))>>, tp[2], R(GroupTab[6], BgSettings(TRUE, BgStatic))),
+                  In2("H", tp[2], <<R(GroupTab[6], BgSettings(TRUE, BgStatic))>>, tp[1], R(GroupTab[4], BgSettings(TRUE, BgStatic)))} : tp \in TwinPairs}
+
+InputSeq == SetToSeq(SliceH \cup SliceA \cup SliceB \cup SliceC \cup SliceD \cup SliceE \cup SliceF \cup SliceG)
 NumberedSeq == LET s == InputSeq IN [i \in 1..Len(s) |-> [s[i] EXCEPT !.id = i]]
 MCInputs == KRange(NumberedSeq)
 
 ASSUME ndJsonSerialize("inputs.ndjson", NumberedSeq)
+ASSUME ndJsonSerialize("probes.ndjson", SetToSeq(ProbeSet))
 
 \* export-only run: no behaviour to explore
 ExportInit == cur = [rounds |-> <<>>, other |-> <<>>] /\ rnd = 0 /\ todo = <<>> /\ cluster = {}
 ExportNext == UNCHANGED vars
 ASSUME PrintT([universe |-> Len(InputSeq), A |-> Cardinality(SliceA), B |-> Cardinality(SliceB), C |-> Cardinality(SliceC),
-               D |-> Cardinality(SliceD), E |-> Cardinality(SliceE), F |-> Cardinality(SliceF), G |-> Cardinality(SliceG),
+               D |-> Cardinality(SliceD), E |-> Cardinality(SliceE), F |-> Cardinality(SliceF), G |-> Cardinality(SliceG), H |-> Cardinality(SliceH), probes |-> Cardinality(ProbeSet),
                leases |-> Cardinality(LeaseSet), exposeLists |-> Cardinality(ExpLists(MaxExpA))])
 =============================================================================
